@@ -134,6 +134,16 @@ private:
     for (unsigned int i = 0; i < l.size(); ++i) {
       interval_t intv = l[i];
 
+      // This must be checked before the test for duplicates because
+      // prev is initially top (as a sentinel): a top interval at the
+      // first position would be taken for a duplicate and dropped.
+      if (intv.is_top()) {
+        CRAB_LOG("disint", crab::outs() << "-- Normalize: top interval"
+                                        << "\n");
+        is_bottom = false;
+        return list_intervals_t();
+      }
+
       if (prev == intv) {
         CRAB_LOG("disint", crab::outs() << "-- Normalize: duplicate"
                                         << "\n");
@@ -145,13 +155,6 @@ private:
                                         << "\n");
         bottoms++;
         continue;
-      }
-
-      if (intv.is_top()) {
-        CRAB_LOG("disint", crab::outs() << "-- Normalize: top interval"
-                                        << "\n");
-        is_bottom = false;
-        return list_intervals_t();
       }
 
       if (!prev.is_top()) {
